@@ -183,6 +183,11 @@ def c13_3(ctx):
               'a match is produced only if the ordered list of matched operand ids is not one of the configured disallowed combinations', why)
     ids = [n for n in walk_no_nested(f.node) if isinstance(n, ast.Assign) and unparse(n.targets[0]) == 'operand_ids']
     ok = len(ids) == 1 and unparse(ids[0].value) == '[op.operand.id for op in matched_operands]'
+    if not ids:
+        # the list written in the membership test itself, without a name
+        cm = [c for c in ast.walk(f.node) if isinstance(c, ast.Compare) and len(c.ops) == 1 and isinstance(c.ops[0], (ast.In, ast.NotIn))
+              and unparse(c.comparators[0]) == "self._config['disallowed_pairs']"]
+        ok = len(cm) == 1 and unparse(cm[0].left) == '[op.operand.id for op in matched_operands]'
     ctx.check(ok, 'disallowed:ordered-ids', f.site(ids[0]) if ids else f.site(), 'the combination is the list of operand ids in operand order (order and multiplicity matter)',
               '; '.join(unparse(i) for i in ids))
 
